@@ -262,6 +262,7 @@ def run_chunk(args):
     def count(key, n=1):
         out['counts'][key] = out['counts'].get(key, 0) + n
     results = E.evaluate_encode(drv, treq, cases)
+    seen_sig = {}
     for r in results:
         c = r.c
         kind = E.kind_of(c)
@@ -286,6 +287,12 @@ def run_chunk(args):
         fail = failure_of(r)
         if not fail:
             continue
+        sigkey = json.dumps(describe(r)[2], sort_keys=True)
+        seen_sig[sigkey] = seen_sig.get(sigkey, 0) + 1
+        if seen_sig[sigkey] > 1:
+            # one (shrunk) representative per signature and chunk; the rest is only counted
+            count('failures-not-reported')
+            continue
         if kind == 'generated':
             def still(c2, fail=fail):
                 cs = P.gen_values(drv, treq, [c2], core.rng_for(PROP, seed, 'shrink'))
@@ -293,7 +300,7 @@ def run_chunk(args):
                     return False
                 r2 = E.evaluate_encode(drv, treq, cs)[0]
                 return failure_of(r2) == fail
-            small = P.shrink(c, still, budget=25)
+            small = P.shrink(c, still, budget=16)
             if small is not c:
                 cs = P.gen_values(drv, treq, [small], core.rng_for(PROP, seed, 'shrink'))
                 r2 = E.evaluate_encode(drv, treq, cs)[0] if cs else None
